@@ -141,3 +141,38 @@ Definition get_peers_count (ntracked maxreq : nat) : nat :=
 Definition asked_count (with_head : bool) (ntrusted ntracked maxreq : nat) : nat :=
   if with_head && negb (get_peers_count ntracked maxreq =? 0)%nat
   then get_peers_count ntracked maxreq else ntrusted.
+
+(** ** answers as streams of frames, each with its own arrival time *)
+
+(** sendMessage: "for i := 0; i < req.Amount; i++ { serde.Read }", then the
+    stream is closed: at most [amount] frames are ever read from a peer's
+    stream, whatever the peer goes on writing *)
+Definition read_frames (amount : nat) (frames : list resp) : list resp := firstn amount frames.
+
+(** the head request has Amount 1: the first frame is the peer's answer (a
+    stream that ends before any frame = processResponses fails on the empty
+    list); a second frame is never read *)
+Definition head_frame (frames : list resp) : resp :=
+  match read_frames 1 frames with
+  | [] => RFail
+  | r :: _ => r
+  end.
+
+(** header.Verify reads the clock (time.Now) inside verify(), once per call: the
+    per-peer goroutine judges its answer at the instant IT runs, not at the
+    instant Head was called. A timed answer = (clock reading of that goroutine's
+    Verify, what the stream yielded). *)
+Definition answer_at (drift : Z) (tv : hdr -> hdr -> tvres) (want : option N) (t : hdr)
+           (x : Z * resp) : ans :=
+  answer (fst x) drift tv want t (snd x).
+
+(** Head over the peers' timed answers in arrival order; [Head] is the special
+    case in which every clock reading is the same (Proofs: Head_is_HeadT) *)
+Definition HeadT (drift : Z) (tv : hdr -> hdr -> tvres) (want : option N) (t : hdr)
+           (n : nat) (resps : list (Z * resp)) : nat * list outcome :=
+  head_run n (map (answer_at drift tv want t) resps).
+
+(** ... and over the peers' timed streams of frames *)
+Definition HeadF (drift : Z) (tv : hdr -> hdr -> tvres) (want : option N) (t : hdr)
+           (n : nat) (arr : list (Z * list resp)) : nat * list outcome :=
+  HeadT drift tv want t n (map (fun x => (fst x, head_frame (snd x))) arr).
